@@ -2,7 +2,7 @@
 from ..core import Case
 from ..prop import Prop
 from .c10 import (PAGE_SIZES, M64, KMAX, KeyGen, ValGen, gen_history, tree_oracle, tree_features, tree_stats,
-                  canon_line, max_keys, probe_ops)
+                  canon_line, max_keys, probe_ops, realloc_case, died)
 
 MIN_SIZE = 1 << 20
 
@@ -58,6 +58,8 @@ class C16(Prop):
             ps = 4096 if j % 2 == 0 else rng.choice([1024, 256] if not thorough else [80, 96, 128, 256, 1024])
             delta = [0, -1, 1, 2, -2][j % 5] if j >= 2 else 0
             cases.append(boundary_case(rng, "b%d" % j, ps, delta, with_delete=(j % 3 == 2)))
+        for j in range(40 if thorough else 8):
+            cases.append(realloc_case(rng, "ra%d" % j, rng.choice([80, 80, 96, 128, 256, 1024]), "persistent", reopen=True))
         for j in range(n):
             ps = rng.choice([80, 80, 80, 96, 96, 128, 128, 256, 1024, 4096])
             length = rng.choice([30, 150, 600, 2000]) if thorough else rng.choice([20, 80, 250, 600])
@@ -70,9 +72,7 @@ class C16(Prop):
         return canon_line(line)
 
     def oracle(self, case, il):
-        if len(il) < len(case.ops):
-            return ["implementation printed %d lines for %d ops" % (len(il), len(case.ops))]
-        return tree_oracle(case, il)
+        return died(case, il) or tree_oracle(case, il)
 
     def nontrivial(self, case, il):
         f = tree_features(case, il)
